@@ -331,10 +331,15 @@ def check_core_policy(ctx, prop, prop_file, theorems, kinds, rule, replay=None, 
 
 
 def check_C01(ctx, replay=None):
-    check_core_policy(ctx, "C01", "C01.v", ["C01_first_matching_group", "C01_errno_carries_eperm", "C01_other_actions_exact"],
+    ctx.ensure_theories()
+    gen, log = ctx.regenerate()
+    if gen is None:
+        ctx.regen_failed = "regeneration failed: " + log[-2000:]
+    check_core_policy(ctx, "C01", "C01.v", ["C01_first_matching_group", "C01_errno_carries_eperm", "C01_other_actions_exact",
+                                            "C01_lists_means_name_with_that_number", "C01_first_in_policy_order", "C01_source_group_is_the_model"],
                       ["names", "names", "names_long", "whole_table", "degenerate"],
                       "name-only policies (1..6 groups, 0..|table| names, all four tables, both byte orders), compiled by the implementation and the extracted model (instruction-exact comparison); every accepted program run on partition events (numbers of all listed names +-1, boundary numbers, foreign architectures) against the extracted decide; non-trivial = accepted policy with events evaluated",
-                      replay=replay)
+                      replay=replay, gen=gen)
 
 
 CHECKS.update({"C01": check_C01})
@@ -381,12 +386,17 @@ def check_C02(ctx, replay=None):
 
 # ------------------------------------------------------------------------------------------------ C03
 def check_C03(ctx, replay=None):
+    ctx.ensure_theories()
+    gen, log = ctx.regenerate()
+    if gen is None:
+        ctx.regen_failed = "regeneration failed: " + log[-2000:]
     check_core_policy(ctx, "C03", "C03.v",
                       ["C03_compiled_program_is_decide", "C03_match_is_for_own_syscall", "C03_any_satisfied_list_matches",
-                       "C03_unmatched_entry_as_absent", "C03_programs_agree_without_unmatched_entry", "C03_nonvacuous"],
+                       "C03_unmatched_entry_as_absent", "C03_programs_agree_without_unmatched_entry",
+                       "C03_source_entry_is_the_model", "C03_validated_entries_nondegenerate", "C03_nonvacuous"],
                       ["cond", "cond", "mixed", "mixed", "mixed_long", "condlong"],
                       "policies mixing unconditional and conditional entries (1..4 groups, repeated names merged into OR lists, 1..85 conditions per list, repeated arguments, the same syscall in several groups), compiled by the implementation and the extracted model (instruction-exact comparison); every accepted program run on events aimed at each list (satisfying / nearly satisfying every condition) and on events whose argument words equal other entries' syscall numbers and operands, against the extracted decide; non-trivial = accepted policy with conditional entries and events evaluated",
-                      replay=replay, npol=(220, 4000), nev=(50, 100))
+                      replay=replay, npol=(220, 4000), nev=(50, 100), gen=gen)
 
 
 # ------------------------------------------------------------------------------------------------ C04
